@@ -257,6 +257,19 @@ func runConn(c ConnCase, k *ev.Case) *ev.Failure {
 				conn.OpenDownstream(vctx, []*message.DownstreamFilter{message.NewDownstreamFilterAllFor("fail-node")})
 			case "metadata":
 				conn.SendMetadata(vctx, &message.BaseTime{Name: "victim", BaseTime: time.Unix(1, 0)})
+			case "stray-metadata":
+				// metadata addressed to a bystander's alias from a source node nobody subscribed to, then an ordinary lifecycle
+				// operation of another stream (which needs the routing tables): neither stream may notice (seeded change C07/m5)
+				inc := b.CurrentInc()
+				for _, r := range downs {
+					if st := b.Downstream(r.d.ID); st != nil && st.Inc == inc.Index && !inc.Link.Dead() {
+						inc.Send(&message.DownstreamMetadata{RequestID: message.RequestID(880001 + 2*vi), StreamIDAlias: st.Alias, SourceNodeID: "node-nobody-asked-for",
+							Metadata: &message.BaseTime{Name: "stray", BaseTime: time.Unix(1, 0)}})
+					}
+				}
+				if d, err := conn.OpenDownstream(vctx, []*message.DownstreamFilter{message.NewDownstreamFilterAllFor("victim-node")}, iscp.WithDownstreamQoS(message.QoSReliable)); err == nil {
+					d.Close(vctx)
+				}
 			case "dead-down-flood":
 				// a downstream whose close request the broker never answers: closed at the client (Close timed out), still served by
 				// the broker, which goes on sending it far more chunks than any per-stream queue of the client holds. The streams
@@ -314,8 +327,10 @@ func runConn(c ConnCase, k *ev.Case) *ev.Failure {
 	}
 	select {
 	case <-wdone:
-	case <-time.After(perCall):
-		return ev.Failf("harness", "writers did not finish")
+	case <-time.After(20 * time.Second):
+		// every call in there has a deadline of at most 8 s: something is blocked beyond its context - a lifecycle operation of
+		// one stream (or a stray message for it) has wedged the others
+		return ev.Failf("C07.2 streams-blocked", "20 s after the start, bystander writers or lifecycle operations of other streams (victims %v) are still blocked although every call had a deadline of at most 8 s", c.Victims)
 	}
 	// late bystanders, each behind a pilot stream that was acknowledged and closed
 	qosOf := append(append([]int(nil), c.UpQoS...), c.LateUps...)
@@ -575,7 +590,7 @@ var subConn = ev.Sub[ConnCase]{Name: "connection", Repeats: 10, Q: 40, T: 1200,
 		for i := 0; i < nd; i++ {
 			c.DownQoS = append(c.DownQoS, rapid.IntRange(1, 2).Draw(t, "dq"))
 		}
-		c.Victims = rapid.SliceOfN(rapid.SampledFrom([]string{"open-close-up", "open-close-down", "failed-open-up", "failed-open-down", "metadata", "dead-down-flood"}), 0, 8).Draw(t, "victims")
+		c.Victims = rapid.SliceOfN(rapid.SampledFrom([]string{"open-close-up", "open-close-down", "failed-open-up", "failed-open-down", "metadata", "dead-down-flood", "stray-metadata"}), 0, 8).Draw(t, "victims")
 		c.Interleave = rapid.SliceOfN(rapid.SampledFrom([]int{0, 0, 20, 100, 400}), 1, 5).Draw(t, "interleave")
 		c.ReuseAliases = rapid.Bool().Draw(t, "reuse")
 		if !c.Outage && rapid.IntRange(0, 2).Draw(t, "late") == 0 {
@@ -597,6 +612,8 @@ func TestRegress(t *testing.T) {
 	for i := 0; i < 4; i++ {
 		subConn.One(t, ConnCase{Codec: "proto", UpQoS: []int{1, 0, 2, 1}, DownQoS: []int{1}, Writes: 6, Chunks: 4, Outage: true, Withhold: []int{3, 0, 0, 2}, Interleave: []int{0, 50}, Policy: upk.Policy{Kind: "none"}})
 	}
+	// seeded change C07/m5: stray metadata for a bystander's alias, then a lifecycle operation of another stream
+	subConn.One(t, ConnCase{Codec: "proto", UpQoS: []int{1}, DownQoS: []int{1, 2}, Writes: 3, Chunks: 8, Victims: []string{"stray-metadata", "open-close-down"}, Interleave: []int{0}, Policy: upk.Policy{Kind: "none"}})
 	// seeded change C07/m2: a dead-but-served downstream floods the connection's dispatcher
 	subConn.One(t, ConnCase{Codec: "proto", UpQoS: []int{1}, DownQoS: []int{1, 2}, Writes: 3, Chunks: 6, Victims: []string{"dead-down-flood"}, Interleave: []int{0}, Policy: upk.Policy{Kind: "none"}})
 }
